@@ -69,6 +69,9 @@ func run(p *props.Prop, r *rep.Report, tier, repo, verif string, seed int64) (co
 			c.Dir = repo
 			cfgs = append(cfgs, c)
 		}
+	} else if tier == "thorough" {
+		// every property is also decided on a 32-bit configuration (int/uint width, MaxBatchSize) in the thorough tier
+		cfgs = append(cfgs, ana.Config{Dir: repo, GOARCH: "386"})
 	}
 	var loaded []string
 	var last *props.Ctx
